@@ -44,6 +44,7 @@ type mapper struct {
 	// fault injection
 	failAt   int   // fail the n-th call (1-based); 0 = never
 	failErr  error // error to return
+	failFull bool  // the failing call returns a complete, usable table description next to its error
 	deltaAt  int   // n-th call returns a table with a wrong column count
 	delta    int
 	ncalls   int
@@ -84,6 +85,14 @@ func (m *mapper) MysqlTable(name gobinlog.MysqlTableName) (gobinlog.MysqlTable, 
 	}
 	if m.failAt == m.ncalls {
 		m.fired = true
+		if t, ok := m.tables[name.DbName+"\x00"+name.TableName]; ok && m.failFull {
+			// e.g. a stale cached definition handed back together with the refresh error
+			mt := &mtable{name: name}
+			for _, c := range t.Cols {
+				mt.cols = append(mt.cols, mcol{c.Name, c.Unsigned})
+			}
+			return mt, m.failErr
+		}
 		return &mtable{name: name}, m.failErr
 	}
 	t, ok := m.tables[name.DbName+"\x00"+name.TableName]
